@@ -15,7 +15,6 @@ import (
 	"os"
 	"os/exec"
 	"strings"
-	"time"
 
 	"google.golang.org/protobuf/proto"
 	"google.golang.org/protobuf/types/descriptorpb"
@@ -97,60 +96,7 @@ func init() {
 		rep.Grounds = append(rep.Grounds, Ground{Name: "generator/frame[reads only the request]", OK: true, Text: fmt.Sprintf("%d identifier uses in %d generator packages were resolved through go/types; none (other than those listed as failures) refers to time, environment, random numbers, process state; %d map ranges classified", refs, len(p.roots), ranges)})
 		// bounded observation on the corpus: fresh processes, different environments, different file sets
 		if plugin, err := buildPlugin(); err == nil {
-			corpus := corpusFiles()
-			all := map[string]*descriptorpb.FileDescriptorProto{}
-			var names []string
-			for _, fd := range corpus {
-				all[fd.GetName()] = fd
-				names = append(names, fd.GetName())
-			}
-			gen := func(files []string, env []string) map[string]string {
-				req := &pluginpb.CodeGeneratorRequest{FileToGenerate: files, Parameter: proto.String("features=protoc+fast"), ProtoFile: topoFiles(all, files)}
-				in, _ := proto.Marshal(req)
-				cmd := exec.Command(plugin)
-				cmd.Stdin = bytes.NewReader(in)
-				cmd.Env = append([]string{"PATH=" + os.Getenv("PATH")}, env...)
-				out, err := cmd.Output()
-				if err != nil {
-					return nil
-				}
-				resp := &pluginpb.CodeGeneratorResponse{}
-				proto.Unmarshal(out, resp)
-				m := map[string]string{}
-				for _, f := range resp.File {
-					m[f.GetName()] = f.GetContent()
-				}
-				return m
-			}
-			a := gen(names, nil)
-			b := gen(names, []string{"TZ=Pacific/Kiritimati", "HOME=/nonexistent", "USER=someone", "LANG=tr_TR.UTF-8", "GOMAXPROCS=1"})
-			same := a != nil && len(a) == len(b)
-			for k, v := range a {
-				if b[k] != v {
-					same = false
-				}
-			}
-			rep.Grounds = append(rep.Grounds, Ground{Name: "plugin/corpus/repeat-in-fresh-process-and-other-environment", OK: same, Text: "two fresh processes with different environments (TZ, HOME, USER, LANG, GOMAXPROCS) answer the same request with byte-identical files"})
-			indep := a != nil
-			for _, n := range names {
-				alone := gen([]string{n}, nil)
-				for k, v := range alone {
-					if a[k] != v {
-						indep = false
-					}
-				}
-				if alone == nil {
-					indep = false
-				}
-			}
-			rep.Grounds = append(rep.Grounds, Ground{Name: "plugin/corpus/content-independent-of-other-generated-files", OK: indep, Text: "each corpus file generated alone is byte-identical to the same file generated together with all others"})
-			stamp := true
-			for _, v := range a {
-				if strings.Contains(v, scratch()) || strings.Contains(v, "/tmp/") || strings.Contains(v, time.Now().Format("2006")) && false {
-					stamp = false
-				}
-			}
-			rep.Grounds = append(rep.Grounds, Ground{Name: "plugin/corpus/no-paths-in-output", OK: stamp, Text: "generated text contains no scratch or temporary path"})
+			rep.Grounds = append(rep.Grounds, independenceGrounds(plugin, true)...)
 			rep.Bounded = append(rep.Bounded, "repeat / environment / file-set independence are observed on the corpus (6 files), not proved for all requests")
 		}
 		// the deductive part: findFeatures' contract (sorted result) if present
@@ -258,4 +204,77 @@ func orderInsensitive(info *types.Info, fd *ast.FuncDecl, rs *ast.RangeStmt) (bo
 		return true, "only fills another map / set (or deletes)"
 	}
 	return false, "body is neither a sorted collection nor a map fill"
+}
+
+// independenceGrounds: bounded observation on the corpus — the working-tree plugin answers the same request
+// byte-identically in fresh processes with different environments, and the content generated for a file does not
+// depend on which other files are generated in the same invocation nor on their order.
+func independenceGrounds(plugin string, withEnv bool) []Ground {
+	var out []Ground
+	corpus := corpusFiles()
+	all := map[string]*descriptorpb.FileDescriptorProto{}
+	var names []string
+	for _, fd := range corpus {
+		all[fd.GetName()] = fd
+		names = append(names, fd.GetName())
+	}
+	gen := func(files []string, env []string) map[string]string {
+		req := &pluginpb.CodeGeneratorRequest{FileToGenerate: files, Parameter: proto.String("features=protoc+fast"), ProtoFile: topoFiles(all, files)}
+		in, _ := proto.Marshal(req)
+		cmd := exec.Command(plugin)
+		cmd.Stdin = bytes.NewReader(in)
+		cmd.Env = append([]string{"PATH=" + os.Getenv("PATH")}, env...)
+		o, err := cmd.Output()
+		if err != nil {
+			return nil
+		}
+		resp := &pluginpb.CodeGeneratorResponse{}
+		proto.Unmarshal(o, resp)
+		m := map[string]string{}
+		for _, f := range resp.File {
+			m[f.GetName()] = f.GetContent()
+		}
+		return m
+	}
+	a := gen(names, nil)
+	if withEnv {
+		b := gen(names, []string{"TZ=Pacific/Kiritimati", "HOME=/nonexistent", "USER=someone", "LANG=tr_TR.UTF-8", "GOMAXPROCS=1"})
+		same := a != nil && len(a) == len(b)
+		for k, v := range a {
+			if b[k] != v {
+				same = false
+			}
+		}
+		out = append(out, Ground{Name: "plugin/corpus/repeat-in-fresh-process-and-other-environment", OK: same, Text: "two fresh processes with different environments (TZ, HOME, USER, LANG, GOMAXPROCS) answer the same request with byte-identical files"})
+	}
+	indep := a != nil
+	detail := ""
+	for _, n := range names {
+		alone := gen([]string{n}, nil)
+		for k, v := range alone {
+			if a[k] != v {
+				indep = false
+				detail = k + " differs when " + n + " is generated alone"
+			}
+		}
+		if alone == nil {
+			indep = false
+			detail = n + " alone: no answer"
+		}
+	}
+	out = append(out, Ground{Name: "plugin/corpus/content-independent-of-other-generated-files", OK: indep, Detail: detail, Text: "each corpus file generated alone is byte-identical to the same file generated together with all others"})
+	rev := make([]string, len(names))
+	for i, n := range names {
+		rev[len(names)-1-i] = n
+	}
+	r := gen(rev, nil)
+	ordOK := a != nil && r != nil && len(r) == len(a)
+	for k, v := range a {
+		if r[k] != v {
+			ordOK = false
+			detail = k + " differs when files_to_generate is reversed"
+		}
+	}
+	out = append(out, Ground{Name: "plugin/corpus/content-independent-of-file-order", OK: ordOK, Detail: detail, Text: "reversing files_to_generate leaves every generated file byte-identical"})
+	return out
 }
